@@ -131,8 +131,22 @@ class Agent_0(rpu.AgentComponent):
         # the state was set.
         self.advance(to_advance, publish=False, push=True)
 
+        # the tasks of this bulk are on their way already: a service which does
+        # not come up must not fail them (the service task itself is failed by
+        # its wrapper)
         for service in services:
-            self._launch_service_task(service)
+            try:
+                self._launch_service_task(service)
+
+            except Exception as e:
+                self._log.exception('service %s did not start', service['uid'])
+
+                if self._service_uid_launched != service['uid']:
+                    # the service task never made it into the pipeline
+                    service['exception']        = repr(e)
+                    service['exception_detail'] = \
+                                       '\n'.join(ru.get_exception_trace())
+                    self.advance(service, rps.FAILED, publish=True, push=False)
 
 
     # --------------------------------------------------------------------------
